@@ -192,6 +192,31 @@ PROPS['C13'] = {
         'data equality is up to length-1 axes, as the property states'],
 }
 
+PROPS['C18'] = {
+    'harness': 'ack_bpch', 'level': 'exploration',
+    'runs': {'quick': 2000, 'thorough': 60000},
+    'cpu_s': 300, 'wall_s': 900,
+    'rule': ('one run = 1-3 generated "CTM bin 02" files (1-3 time blocks, 1-2 '
+             'categories with offsets, 1-3 tracers with differing layer counts '
+             '1-3, nested-grid offsets, own tracerinfo/diaginfo tables with '
+             'scales 0.5..1e12), each in its own directory; operations: scaled '
+             'read (values == raw*scale, unit/category/tracer ids/time bounds/'
+             'grid header), unscaled read -> write -> bytes identical (judged '
+             'at the acknowledgement image and after a handle schedule), '
+             'scaled read -> write -> read, alternative reader comparison; the '
+             'output directory is fresh, already holds the same tables, or '
+             'holds foreign tables left by an earlier write; the process cwd '
+             'moves between directories with and without foreign tables. '
+             'distinct = abstracted trace; non-trivial = a write with a handle '
+             'schedule was judged'),
+    'components': {'real': REAL, 'stub': ['peer: reference CTM-bin-02 codec and table writer',
+                                          'crash = byte copy at acknowledgement',
+                                          'ambient disk state (side-car tables, cwd)']},
+    'assumptions': [
+        'files keep their own tables next to them; reading a file whose directory holds foreign tables is the format\'s convention and is not judged',
+        'scaled values are compared to raw*scale with relative tolerance 2e-6 (float32 arithmetic)'],
+}
+
 MANIFEST_TEXT = {
     'C05': {
         'text': ('Seeded search over schedules: thousands of simulated runs, '
@@ -348,6 +373,24 @@ MANIFEST_TEXT['C13'] = {
     'technique': 'deterministic simulation: seeded access schedule over the record reader\'s hidden cursor, compared step by step with a fresh reader of the other family; CPU-limited termination probe',
 }
 
+MANIFEST_TEXT['C18'] = {
+    'text': ('Seeded search over bpch read / write cycles in which the '
+             'simulator owns the ambient disk state the format depends on '
+             '(side-car tracer tables next to the file, left by earlier '
+             'writes, or in the current working directory), the durable image '
+             'at the instant the writer returns, the handle schedule and '
+             'collections; oracles: unscaled read -> write is byte identical, '
+             'scaled read equals raw*scale with the table\'s unit, write -> '
+             'read reproduces tracer data, time bounds, ids and grid header; '
+             'files come from an independent CTM-bin-02 encoder.'),
+    'design_ref': 'DESIGN.md section 5 (C18)',
+    'note': ('Trusted: reference bpch codec (decode/re-encode of the repo '
+             'sample is byte identical). Two recorded known findings: the '
+             'alternative reader bpch2 raises on every file in this '
+             'environment; side-cars are not overwritten.'),
+    'technique': 'deterministic simulation: ambient disk state (side-car tables, cwd) + crash-at-acknowledgement image + handle schedule; byte-identity and scaling oracles against a reference codec',
+}
+
 NOT_APPLICABLE = {
     'C01': 'pure function of (file, operation sequence): no clock, handle, finaliser, registry or disk state enters any conjunct, so there is no schedule or fault to sample',
     'C02': 'hyperslab selection is a pure function of arrays and selectors; nothing for a simulator to schedule or fault',
@@ -364,5 +407,4 @@ NOT_APPLICABLE = {
 
 # claimed by DESIGN.md but whose check is not built/registered yet
 PENDING = {
-    'C18': 'planned (DESIGN.md section 5): check not registered yet',
 }
